@@ -42,6 +42,8 @@ pub struct Nor {
     /// accesses outside the device
     pub oob: usize,
     pub faults_fired: usize,
+    /// address of the first read since `arm` (used to observe which slot a returned `Slot` handle refers to)
+    pub first_read: Option<usize>,
 }
 
 impl Nor {
@@ -60,6 +62,7 @@ impl Nor {
             needs_set: 0,
             oob: 0,
             faults_fired: 0,
+            first_read: None,
         }
     }
     /// reset counters and log; injection indices are relative to this point
@@ -69,6 +72,7 @@ impl Nor {
         self.mutcount = 0;
         self.reads = 0;
         self.needs_set = 0;
+        self.first_read = None;
     }
     pub fn reboot(&mut self) {
         self.dead = false;
@@ -131,6 +135,9 @@ impl Nor {
     pub fn do_read(&mut self, a: usize, buf: &mut [u8]) -> Result<(), NorErr> {
         self.tick().map_err(NorErr::Custom)?;
         self.reads += 1;
+        if self.first_read.is_none() {
+            self.first_read = Some(a);
+        }
         if a.checked_add(buf.len()).map(|e| e > self.mem.len()).unwrap_or(true) {
             // a refused read is not an access; only mutating requests beyond the device are counted
             return Err(NorErr::Oob);
